@@ -506,6 +506,7 @@ def r2q(R, check=False, tol=100):
     kx = R[2, 1] - R[1, 2]  # Oz - Ay
     ky = R[0, 2] - R[2, 0]  # Ax - Nz
     kz = R[1, 0] - R[0, 1]  # Ny - Ox
+    ks = math.sqrt(kx * kx + ky * ky + kz * kz)  # 2 sin(theta) = 4 qs |v|
 
     if (R[0, 0] >= R[1, 1]) and (R[0, 0] >= R[2, 2]):
         kx1 = R[0, 0] - R[1, 1] - R[2, 2] + 1  # Nx - Oy - Az + 1
@@ -536,6 +537,15 @@ def r2q(R, check=False, tol=100):
     nm = np.linalg.norm(kv)
     if abs(nm) < tol * _eps:
         return eye()
+    elif qs > 0.9:
+        # near the identity 1 - qs**2 loses all precision: take |v| from the skew-symmetric part
+        q = np.r_[qs, (ks / (4.0 * qs) / nm) * kv]
+        return q / np.linalg.norm(q)
+    elif qs < 0.1:
+        # near a half turn trace(R) + 1 loses all precision: take qs from the skew-symmetric part
+        qv = math.sqrt(1.0 - qs ** 2)
+        q = np.r_[ks / (4.0 * qv), (qv / nm) * kv]
+        return q / np.linalg.norm(q)
     else:
         return np.r_[qs, (math.sqrt(1.0 - qs ** 2) / nm) * kv]
 
